@@ -103,7 +103,10 @@ def gen_world(rng, profile):
     if r.random() < profile.get("olists", 0.35):
         host = classes[r.choice(["M", root])]
         host["olists"] = [{"name": "ol0", "cls": r.choice(leafs), "n": r.randint(1, 2), "rand": r.random() < 0.75}]
-        hp = rel_scalars(scn, "M" if host is classes["M"] else root)
+        if r.random() < 0.3:
+            # a list of random size: the user puts the objects in, the size is solved (at most the number of objects)
+            host["olists"][0].update({"rand": True, "randsz": True})
+        hp = [x for x in rel_scalars(scn, "M" if host is classes["M"] else root) if not x[1].get("is_size") or not host["olists"][0].get("randsz")]
         host["blocks"].append({"name": "zz0", "stmts": g.pstmts([x for x in hp if "ol0" in x[0]] + hp[:2], 1, 2)})
         ol = host["olists"][0]
         ef = [f for f in W.members(scn, ol["cls"]) if f[1] == "scalar" and not f[2].get("enums")]
